@@ -3,11 +3,14 @@ CONSTANTS
   MaxDev = 1
   Depth = 2
   EditOps = {"AddParagraph", "AddHeading", "AddImage", "AddHeader", "AddFooter", "AddListItem", "AddFootnote", "AddEndnote", "SetFootnoteConfig", "SetTitle", "AddTable", "RemoveParagraphAt", "Save", "Reopen", "Render"}
-  Dims = {"base", "extra", "scheme", "ext", "media", "ns", "pkgns", "tgstyle", "pkgids", "cont", "blk"}
+  Dims = {"base", "extra", "scheme", "ext", "media", "ns", "pkgns", "tgstyle", "pkgids", "cont", "blk", "xrel", "mix", "mixin", "sty", "sdef", "sref"}
   ImgFmts = {"png"}
   ImgNames = {"ext"}
   IdPool = {"rId1", "rId3", "rId40"}
   NamePool = {"image0.png", "image2.png"}
-INVARIANTS Inv_All Inv_DetectParts Inv_ShapeWellFormed
+  SlimDims = {"xrel", "mix", "mixin", "sty", "sdef", "sref"}
+  SlimOps = {"AddHeading", "AddImage", "AddFootnote", "RemoveParagraphAt", "Reopen"}
+  DimGroups = {}
+INVARIANTS Inv_All Inv_DetectParts Inv_DetectRels Inv_ShapeWellFormed
 PROPERTIES Act_Frame
 CHECK_DEADLOCK FALSE
